@@ -86,7 +86,18 @@ pub struct SenderLink {
     pub max_message_size: u64,
     pub session_stop_reason: OnceLock<SessionStopReason>,
     pub unsettled: Option<OrderedMap<DeliveryTag, UnsettledMessage>>,
+    pub output_handle: Option<OutputHandle>,
+    /// sender flow state as this unit needs it: how many credits were consumed (unit LINKFLOW proves consume itself)
+    pub credits_consumed: Ghost<nat>,
 }
+pub struct OutputHandle(pub u32);
+impl Clone for OutputHandle { fn clone(&self) -> (r: Self) ensures r == *self { OutputHandle(self.0) } }
+pub fn output_to_handle(h: OutputHandle) -> (r: Handle) ensures r.0 == h.0 { Handle(h.0) }
+#[verifier::external_body]
+pub fn tag_from(t: [u8; 4]) -> (r: DeliveryTag) { unimplemented!() }
+pub trait ErrInto<T>: Sized { spec fn conv(self) -> T; fn err_into(self) -> (r: T) ensures r == self.conv(); }
+impl ErrInto<LinkStateError> for LinkStateError { open spec fn conv(self) -> LinkStateError { self } fn err_into(self) -> (r: LinkStateError) { let e = self; assert(e == <LinkStateError as ErrInto<LinkStateError>>::conv(self)); e } }
+pub struct DetachedFut { pub g: Ghost<int> }
 
 // tokio oneshot channel: the two ends of ONE completion channel share a ghost id
 pub struct OneshotSender { pub id: Ghost<int> }
@@ -282,6 +293,59 @@ impl SenderLink {
                     && (forall|k: DeliveryTag| k != tag && omap(old(self).unsettled).contains_key(k) ==> #[trigger] omap(final(self).unsettled)[k] == omap(old(self).unsettled)[k])
         }),
         r is Err ==> omap(final(self).unsettled) == omap(old(self).unsettled),
+        final(self).credits_consumed == old(self).credits_consumed && final(self).output_handle == old(self).output_handle && final(self).snd_settle_mode == old(self).snd_settle_mode,
+//@@ end
+}
+
+/// nothing new in the trace is a transfer
+pub open spec fn no_transfer_added(s0: Seq<LinkFrame>, s1: Seq<LinkFrame>) -> bool {
+    s1.len() >= s0.len() && s1.take(s0.len() as int) =~= s0 && forall|i: int| s0.len() <= i < s1.len() ==> !((#[trigger] s1[i]) is Transfer)
+}
+
+impl SenderLink {
+    /// stand-in for get_delivery_tag_or_detached (a tokio::select! between flow_state.consume(1) and the detach notification):
+    /// Ok(tag) means exactly ONE credit was consumed (contract of consume, unit LINKFLOW [C08.consume.account]); an error consumed none
+    #[verifier::external_body]
+    pub fn get_delivery_tag_or_detached(&mut self, writer: &mut ChanSender<LinkFrame>, detached: DetachedFut) -> (r: Result<[u8; 4], LinkStateError>)
+        ensures
+            r is Ok ==> final(self).credits_consumed@ == old(self).credits_consumed@ + 1,
+            r is Err ==> final(self).credits_consumed@ == old(self).credits_consumed@,
+            final(self).snd_settle_mode == old(self).snd_settle_mode && final(self).output_handle == old(self).output_handle && final(self).max_message_size == old(self).max_message_size
+                && omap(final(self).unsettled) == omap(old(self).unsettled) && final(self).input_handle == old(self).input_handle,
+            r is Ok ==> final(writer).sent@ == old(writer).sent@,
+            r is Err ==> no_transfer_added(old(writer).sent@, final(writer).sent@),      // (the detach arm answers the peer's detach: a Detach frame, never a transfer)
+    { unimplemented!() }
+
+//@@ fn file=fe2o3-amqp/src/link/sender_link.rs impl=`~impl<T>SenderLink<T>` name=generate_non_resuming_transfer_performative
+//@@ subst `let handle = self .output_handle .clone() .ok_or(LinkStateError::IllegalState)? .into();` => `let handle: Handle = output_to_handle(self.output_handle.clone().ok_or(LinkStateError::IllegalState)?);` rule=R16
+//@@ spec
+    ensures
+        self.output_handle is None ==> r is Err,                                                                     // [C13.link.no-transfer-without-handle] a detached link (no output handle) produces no transfer
+        self.output_handle is Some ==> r is Ok && ({
+            let t = r->Ok_0;
+            &&& t.handle.0 == self.output_handle->Some_0.0
+            &&& t.delivery_id is None && t.delivery_tag == Some(delivery_tag) && t.message_format == Some(message_format)
+            &&& t.settled == Some(match self.snd_settle_mode { SenderSettleMode::Settled => true, SenderSettleMode::Unsettled => false, SenderSettleMode::Mixed => (if settled is Some { settled->Some_0 } else { false }) })   // [C02.send.settled-by-mode] whether a delivery goes out pre-settled is decided by the negotiated snd-settle-mode; only in mixed mode by the caller (default unsettled)
+            &&& t.state == state && t.batchable == batchable                                                          // [C18.controller.state-passed] the delivery state given by the caller (e.g. a transactional-state) is the one on the transfer
+            &&& !t.more && !t.resume && !t.aborted && t.rcv_settle_mode is None
+        }),
+//@@ end
+
+//@@ fn file=fe2o3-amqp/src/link/sender_link.rs impl=`~impl<T>endpoint::SenderLinkforSenderLink<T>` name=send_payload
+//@@ qmark
+//@@ generics
+//@@ nowhere
+//@@ ret Result<Settlement, LinkStateError>
+//@@ param writer : &mut ChanSender<LinkFrame>
+//@@ param detached : DetachedFut
+//@@ subst `DeliveryTag::from(tag)` => `tag_from(tag)` rule=R16
+//@@ spec
+    requires
+        old(self).max_message_size == 0 || true,
+    ensures
+        final(self).credits_consumed@ <= old(self).credits_consumed@ + 1,                                            // [C08.send.one-credit-per-delivery] a send consumes at most one link credit ...
+        r is Ok ==> final(self).credits_consumed@ == old(self).credits_consumed@ + 1,                                // ... and exactly one when the delivery goes out: never a delivery without a credit
+        final(self).credits_consumed@ == old(self).credits_consumed@ ==> no_transfer_added(old(writer).sent@, final(writer).sent@),   // [C08.send.nothing-without-credit] no transfer frame is queued unless a credit was consumed for it
 //@@ end
 }
 
